@@ -7,7 +7,7 @@ CHECK = {'level': 'exploration',
          'after its removal, or both CIFs modified); distinct = hash of the history',
  'assumptions': ['where cif.h does not order several applicable errors, any of them is accepted',
                  'cif_loop_set_category(scalar loop, "") may return CIF_OK (header) or CIF_RESERVED_LOOP (code)',
-                 'partial packets (known finding F-PARTIAL) are not generated; handles are re-acquired for every operation except the documented stale-handle case'],
+                 'partial packets (a generated non-empty proper subset of the loop items; the model gives the omitted items the unknown value) are generated; handles are re-acquired for every operation except the documented stale-handle case'],
  'min_evaluations': 200,
  'technique': 'model-based stateful property testing (rapidcheck-generated operation histories interpreted against a reference data model, invariant after every step)',
  'level_text': 'Generated histories with a full-state oracle after every step (return code + dump of every CIF vs the model), under ASan/UBSan with allocation balance. '
